@@ -35,3 +35,14 @@ func TestHonestRun(t *testing.T) {
 		t.Fatalf("replay differs")
 	}
 }
+
+func BenchmarkHonestRun(b *testing.B) {
+	spec := Spec{Setup: DefaultSetup(3, 2, 5), Seed: "t1"}
+	for i := 0; i < b.N; i++ {
+		w := NewWorld(spec)
+		w.Run()
+		for _, e := range w.Eons {
+			w.CheckAgreement(e)
+		}
+	}
+}
